@@ -61,6 +61,8 @@ def c02_cases(tier, seed):
             un.append(("powf", {"p": {"n": p}}, [v if abs(v) < 3 else v / 2 for v in mixed]))
         for p in (-1, -2):
             un.append(("powf", {"p": {"n": p}}, pw))
+        for p in (1, 2, 3):       # bases that are exactly zero: d/dx x^p = p x^(p-1) is 0 (or 1 for p = 1)
+            un.append(("powf", {"p": {"n": p}}, [0 if k % 2 == 0 else v for k, v in enumerate(mixed)]))
         for name, par, vals in un:
             steps = [RESET, leaf(1, d, vals, trk=True), op(name, [1], 10, **par)]
             cases.append(finish(steps, d, k0=3))
@@ -445,6 +447,25 @@ def c09_cases(tier, seed):
                 steps.append({"op": "start", "args": [10]})
                 steps.append(backward(10))
             cases.append(steps)
+    # operands whose tracking flag and keep flag differ: start_tracking() on a fresh array (tracked, no keep) and
+    # tracked() followed by stop_tracking() (untracked, keep): only the tracking flag decides
+    for name, ar in OPS_ARITY:
+        for m in range(0, 1 << ar):
+            want = [bool(m >> i & 1) for i in range(ar)]
+            st, od = one_op_steps(name, [not w for w in want])        # created with the opposite flags ...
+            pre, opstep = st[:-1], st[-1]
+            flips = [{"op": "start" if w else "stop", "args": [1 + j]} for j, w in enumerate(want)]   # ... then flipped
+            if "bw" in opstep:
+                opstep = dict(opstep, bw=any(want))
+            steps = [RESET] + pre + flips + [opstep]
+            if not any(want):
+                for j in range(ar):
+                    if name != "reshape":
+                        steps.append({"op": "into_vec", "args": [1 + j]})
+            else:
+                steps.append(backward(10, seed_tensor(od)))
+                steps += grads_of(list(range(1, 1 + ar)))
+            cases.append(steps)
     # untracked intermediate: nothing flows below it
     for variant in range(8):
         steps = [RESET, leaf(1, [3], [1, 2, 3], trk=True), leaf(2, [3], [2, -1, 1], trk=True),
@@ -663,4 +684,116 @@ def suite_derived_cases():
              leaf(3, [2], [F(1, 2), -1], trk=True), op("matmul", [1, 2, 3], 4, ta=False, tb=True), op("relu", [4], 5),
              backward(5), op("sum", [5], 6, k=2), backward(6)]
     cases.append(steps)
+    return cases
+
+
+# ---------------------------------------------------------------------------------------------
+# scale: wide fan-out, deep chains, many passes (beyond what exhaustive enumeration reaches)
+def scale_cases(tier, seed):
+    rnd = random.Random(seed)
+    cases = []
+    # one leaf consumed by k+1 operations (consumer counts above 8, 255, ...)
+    for k in ([9, 17, 40, 260, 300] if tier != "thorough" else [5, 9, 16, 17, 33, 64, 65, 129, 255, 256, 257, 300, 520]):
+        steps = [RESET, leaf(1, [2], [1, -2], trk=True), leaf(2, [2], [3, 1], trk=True)]
+        cur, h = 2, 10
+        for i in range(k):
+            steps.append(op("add" if i % 3 else "mul", [cur, 1] if i % 2 else [1, cur], h) if i % 3 else op("add", [cur, 1], h))
+            if cur >= 10:
+                steps.append({"op": "drop", "args": [cur]})
+            cur = h
+            h += 1
+        steps.append(backward(cur, tensor([2], [1, F(1, 2)])))
+        steps += grads_of([1, 2])
+        steps.append(backward(cur))
+        cases.append(steps)
+    # deep chains of built-in operations
+    for depth in ([45, 90] if tier != "thorough" else [20, 41, 45, 64, 90, 130]):
+        steps = [RESET, leaf(1, [3], [1, -1, 2], trk=True)]
+        cur = 1
+        for i in range(depth):
+            o = ["neg", "scale", "relu", "reshape"][i % 4]
+            par = {"scale": {"c": sc(-1 if i % 8 else 2)}, "reshape": {"d": [3] if i % 8 == 3 else [1, 3]}}.get(o, {})
+            steps.append(op(o, [cur], 10 + i, **par))
+            cur = 10 + i
+        steps.append(backward(cur))
+        steps += grads_of([1])
+        cases.append(steps)
+    # many passes over one graph, with drops of siblings and clears in between
+    for npass in (3, 4, 6, 9):
+        steps = [RESET, leaf(1, [2], [2, -1], trk=True), leaf(2, [2], [1, 3], trk=True),
+                 op("mul", [1, 2], 3), op("add", [3, 1], 4), op("mul", [3, 3], 5), op("sub", [5, 4], 6), op("mul", [4, 2], 7)]
+        roots = [6, 7, 4, 5, 3]
+        for p in range(npass):
+            steps.append(backward(roots[p % len(roots)], None if p % 2 else tensor([2], [p + 1, -1])))
+            if p == 1:
+                steps.append({"op": "drop", "args": [7]})
+                roots = [6, 4, 5, 3]
+            if p == 2:
+                steps.append({"op": "clear", "args": [1], "how": "replace"})
+            if p == 4:
+                steps.append({"op": "drop", "args": [5]})
+                roots = [6, 4, 3]
+        steps += grads_of([1, 2, 3, 4])
+        cases.append(steps)
+    # a leaf used by many results that are alive at the same time, passes from several of them
+    steps = [RESET, leaf(1, [2], [1, 2], trk=True)]
+    for i in range(12):
+        steps.append(op("scale", [1], 10 + i, c=sc(i - 5)))
+    for i in (0, 3, 7, 11, 3):
+        steps.append(backward(10 + i))
+    steps += grads_of([1])
+    cases.append(steps)
+    # bigger random programs
+    for _ in range(60 if tier == "thorough" else 10):
+        cases.append(random_program(rnd, nleaves=(2, 3), nsteps=(25, 45), p_pass=0.15))
+    return cases
+
+
+def c02_large_cases(tier, seed):
+    """gradients beyond the exhaustive sizes: dimensions up to 6, rank up to 4"""
+    rnd = random.Random(seed)
+    cases = []
+    n = 600 if tier == "thorough" else 90
+    while len(cases) < n:
+        r1, r2 = rnd.randint(1, 4), rnd.randint(1, 4)
+        a = [rnd.choice([1, 2, 4, 5, 6]) for _ in range(r1)]
+        b = [x if rnd.random() < 0.6 else 1 for x in a][-r2:] if rnd.random() < 0.8 else [rnd.choice([1, 4, 5]) for _ in range(r2)]
+        od = bdims(a, b)
+        if od is None or prod(od) > 300:
+            continue
+        o = rnd.choice(["add", "mul", "sub", "div", "axpy"])
+        trk = rnd.choice(subsets(2))
+        vb = [(k % 7) - 3 for k in range(prod(b))] if o != "div" else [(1 if k % 3 else -1) * F(2) ** ((k % 4) - 1) for k in range(prod(b))]
+        steps = [RESET, leaf(1, a, [(k % 5) - 2 for k in range(prod(a))], trk=trk[0]), leaf(2, b, vb, trk=trk[1]),
+                 op(o, [1, 2], 10, **({"alpha": sc(F(3, 2))} if o == "axpy" else {})),
+                 backward(10, seed_tensor(od, k0=len(cases)))]
+        cases.append(steps)
+    for _ in range(200 if tier == "thorough" else 40):
+        r, k, c = rnd.randint(1, 6), rnd.randint(1, 6), rnd.randint(1, 6)
+        ta, tb = rnd.random() < 0.5, rnd.random() < 0.5
+        lead = rnd.choice([[], [2], [3], [2, 2]])
+        da = lead + ([k, r] if ta else [r, k])
+        db = rnd.choice([[], lead[-1:]]) + ([c, k] if tb else [k, c])
+        dc = rnd.choice([None, [c], [1, c], [r, c], [1]])
+        if prod(lead) * r * c > 150:
+            continue
+        st = FS.mm_case(da, ta, db, tb, dc, trk=(True, True, True))
+        st[-1] = op("matmul", [1, 2] + ([3] if dc else []), 10, ta=ta, tb=tb)
+        st.append(backward(10, seed_tensor(lead + [r, c], k0=3)))
+        cases.append(st)
+        d = [rnd.randint(1, 6) for _ in range(rnd.randint(1, 4))]
+        if prod(d) <= 300:
+            kk = rnd.randint(1, len(d))
+            cases.append([RESET, leaf(1, d, [(i % 9) - 4 for i in range(prod(d))], trk=True), op("sum", [1], 10, k=kk),
+                          backward(10, seed_tensor(d[:len(d) - kk] + [1], k0=1))])
+        ir, ic, fr, fc = rnd.randint(3, 8), rnd.randint(3, 8), rnd.randint(1, 4), rnd.randint(1, 4)
+        if fr <= ir and fc <= ic:
+            sr, sc_ = rnd.randint(1, 4), rnd.randint(1, 4)
+            b = rnd.choice([[], [2], [4]])
+            cnt, dp = rnd.randint(1, 3), rnd.randint(1, 2)
+            od = b + [cnt, (ir - fr) // sr + 1, (ic - fc) // sc_ + 1]
+            st = FS.conv_case(b, dp, ir, ic, cnt, fr, fc, sr, sc_, trk=(True, True))
+            st[-1] = op("conv", [1, 2], 10, sr=sr, sc=sc_)
+            st.append(backward(10, seed_tensor(od, k0=7)))
+            cases.append(st)
     return cases
